@@ -364,12 +364,14 @@ namespace vf
              pegtl::apply_mode A,
              pegtl::rewind_mode M,
              pegtl::tracking_mode T,
-             typename Eol >
+             typename Eol,
+             template< typename... >
+             class Base = obs_control_unw >
    impl_result runner_statectl( const probe& pb )
    {
       pegtl::memory_input< T, Eol, const char* > in( pb.begin(), pb.end(), "src" );
       proto_state ps;
-      const impl_result r = run_parse< Top, Action, pegtl::state_control< obs_control_unw >::template type, A, M >( in, ps );
+      const impl_result r = run_parse< Top, Action, pegtl::state_control< Base >::template type, A, M >( in, ps );
       if( !mon().aborted && r.k != pm::FUEL ) {
          if( !ps.stack.empty() ) {
             mon().flag( "C08", "state-control-protocol:left-open", std::to_string( ps.stack.size() ) + " rule attempts still open in the state_control state after the run, innermost " + demangled( ps.stack.back() ) );
@@ -385,7 +387,9 @@ namespace vf
              template< typename... >
              class Action,
              pegtl::tracking_mode T,
-             typename Eol >
+             typename Eol,
+             template< typename... >
+             class Base = obs_control_unw >
    impl_result runner_coverage( const probe& pb )
    {
       pegtl::memory_input< T, Eol, const char* > in( pb.begin(), pb.end(), "src" );
@@ -394,7 +398,7 @@ namespace vf
       monitor& m = mon();
       bool usable = true;
       try {
-         r.k = pegtl::coverage< Top, Action, obs_control_unw >( in, res ) ? pm::OK : pm::FAIL;
+         r.k = pegtl::coverage< Top, Action, Base >( in, res ) ? pm::OK : pm::FAIL;
       }
       catch( const pegtl::parse_error& e ) {
          r.k = pm::RAISED;
@@ -1221,7 +1225,7 @@ namespace vf
          // ---- rapidcheck: slot scripts, action scripts, longer inputs ---------------------------------
          {
             rc_last last;
-            const std::string al = ge.nslots ? std::string( "abc" ) : ge.alphabet;
+            const std::string al = ge.nslots ? std::string( "ab\n" ) : ge.alphabet;
             const int maxrand = ge.nslots ? 6 : 20;
             // the number of cases is global for the process; scale per grammar through discard-free sub-sampling
             const long budget = scripted ? rc_cases : rand_strings;
